@@ -30,6 +30,7 @@ the real code by the independent IR replay of engine `recoder` on every run); `s
 the same oracle (concatenation of the slices == input).
 -/
 import BV.Lemmas.RecoderSim
+import BV.Props.C18
 
 namespace BV.Props.C14
 open BV.Recoder BV.PrefixArith
@@ -203,6 +204,54 @@ end BV.Props.C14
 
 namespace BV.Props.C14
 open BV.Recoder BV.PrefixArith
+
+open BV.Lemmas.PrefixArith in
+/-- **the encoder's commands are well formed** — a command whose distance fields were stored by
+`Command::init` (`PrefixEncodeCopyDistance`, model `prefixEncodeCopyDistance`; `init_insert` is the case
+`dc = 16`) for a distance code `dc < 2^31` satisfies `DistWF` for the same distance parameters.
+(Uses C18 `dist_encode_exact`.)  So `CmdsWF` is a fact about everything `CreateBackwardReferences` /
+the Zopfli path produce, as long as the block's distance parameters are the ones the commands were built
+with. -/
+theorem init_commands_are_wf (p nd dc : Nat) (hp : p ≤ 3) (hnd : nd ≤ 120) (hdc : dc < 2 ^ 31) (c : Cmd)
+    (h1 : c.distPrefix = (prefixEncodeCopyDistance dc nd p).packed)
+    (h2 : c.distExtra = (prefixEncodeCopyDistance dc nd p).extra32) : DistWF c ⟨p, nd⟩ := by
+  have hlt : c.distPrefix < 65536 := by rw [h1]; unfold DistCode.packed; exact Nat.mod_lt _ (by decide)
+  refine ⟨hlt, ?_⟩
+  intro hlong
+  simp only at hlong ⊢
+  by_cases hs : dc < 16 + nd
+  · exfalso
+    have := (BV.Props.C18.dist_direct_exact p nd dc hs).1
+    rw [h1, this] at hlong
+    simp only [DistCode.packed] at hlong
+    have h1' : (0 * 1024 ||| dc) % 65536 % 1024 ≤ dc := by
+      simp only [Nat.zero_mul, Nat.zero_or]
+      exact Nat.le_trans (Nat.mod_le _ _) (Nat.mod_le _ _)
+    omega
+  · have hge : 16 + nd ≤ dc := by omega
+    obtain ⟨e1, e2, e3, e4, e5⟩ := BV.Props.C18.dist_encode_exact p nd dc hge
+    have hnb := BV.Props.C18.dist_nbits_le p nd dc hdc hp
+    have hsym := BV.Props.C18.dist_symbol_lt_alphabet p nd dc hge 30 hnb
+    have hpw : 2 ^ (p + 1) ≤ 2 ^ 4 := Nat.pow_le_pow_right (by decide) (by omega)
+    have hsym' : (prefixEncodeCopyDistance dc nd p).sym < 1024 := by
+      have : 30 * 2 ^ (p + 1) ≤ 30 * 16 := by omega
+      omega
+    have hpk : (prefixEncodeCopyDistance dc nd p).packed =
+        (prefixEncodeCopyDistance dc nd p).nbits * 1024 + (prefixEncodeCopyDistance dc nd p).sym := by
+      unfold DistCode.packed
+      rw [or_eq_add_of_lt _ _ hsym', Nat.mod_eq_of_lt (by omega)]
+    have hpow : 2 ^ (prefixEncodeCopyDistance dc nd p).nbits ≤ 2 ^ 30 := Nat.pow_le_pow_right (by decide) hnb
+    have hex : (prefixEncodeCopyDistance dc nd p).extra32 = (prefixEncodeCopyDistance dc nd p).extra := by
+      unfold DistCode.extra32
+      exact Nat.mod_eq_of_lt (by omega)
+    rw [h1, h2, hpk, hex]
+    have hm : ((prefixEncodeCopyDistance dc nd p).nbits * 1024 + (prefixEncodeCopyDistance dc nd p).sym) % 1024 =
+        (prefixEncodeCopyDistance dc nd p).sym := by omega
+    have hdv : ((prefixEncodeCopyDistance dc nd p).nbits * 1024 + (prefixEncodeCopyDistance dc nd p).sym) / 1024 =
+        (prefixEncodeCopyDistance dc nd p).nbits := by omega
+    rw [hm, hdv]
+    exact ⟨e1, by omega⟩
+
 
 /-! ### non-vacuity: a concrete meta-block that wraps the ring buffer inside its first literal run -/
 
